@@ -17,8 +17,8 @@ SC["fiat64"] = SC["serial64"]; SC["fiat32"] = SC["serial32"]; SC["simd"] = SC["s
 
 class SubContract:
     """interceptor for Scalar::sub: records call sites, returns fresh outputs tied by the exact equation"""
-    def __init__(self, run, S):
-        self.run, self.S, self.calls = run, S, []
+    def __init__(self, run, S, scope="all"):
+        self.run, self.S, self.calls, self.scope = run, S, [], scope
     def __call__(self, it, args, name):
         S = self.S; lay = S["layout"]; ctx = it.ctx
         k = len(self.calls)
@@ -45,7 +45,11 @@ class SubContract:
         rest = ZERO
         for i in range(1, lay.n): rest = rest + o[i].scale(1 << (S["rb"] * i))
         (m0, _), = o[0].t.items()
-        ctx.__dict__.setdefault("extra_defs", []).append((m0[0], xv - yv + u.scale(L) - rest))
+        ent = (m0[0], xv - yv + u.scale(L) - rest) + (("goal",) if self.scope == "goal" else ())
+        ctx.__dict__.setdefault("extra_defs", []).append(ent)
+        if self.scope == "goal":
+            # the constraint system keeps the outputs free; u is tied to the comparison it stands for
+            ctx.side.append(("booldef", "sub%d_u" % k, Cond("cmp", "lt", xv, yv)))
         ov = lay.value(o)
         ctx.side.append(("cond", Cond("and", ge(ov, 0), lt(ov, L))))
         for i in range(lay.n): it.store(Ptr(args[0].r, args[0].o + lay.cell * i), o[i], lay.cell)
@@ -239,5 +243,8 @@ def run(tier, seed):
     for c in cfgs: native.binary(c)
     tasks = []
     for cfg in cfgs: run_config(rep, cfg, tier, tasks)
+    from checks import c02s
+    build.ir_many([dict(config=c, flavour="O0") for c in cfgs])
+    for cfg in cfgs: tasks += c02s.harnesses(rep, cfg, build.ir(cfg, "O0"), tier)
     run_tasks(tasks, rep)
     return rep
